@@ -1,2 +1,5 @@
-import Tumfl.Props.C11
-#print axioms Tumfl.Props.C11_roundtrip
+import Tumfl.Props.C17
+#print axioms Tumfl.Props.C18_eq
+#print axioms Tumfl.Inst.schema_eq
+#print axioms Tumfl.Inst.schema_exercised
+#print axioms Tumfl.Inst.schema_no_mixed
